@@ -1,42 +1,49 @@
 import OASModel.Scalar
 /-
-  OASModel.Dual — forward-mode dual numbers over `Float`.  Instantiating a model definition
-  at `DualF` yields its directional derivative; used only as an *oracle* in the correspondence
-  check (analytic partials of the code vs derivative of the model), never in a theorem.
+  OASModel.Dual — forward-mode dual numbers over any scalar type of the model.  Instantiating a model definition at
+  `Dual K` yields its directional derivative.  At `K = Float` (`DualF`) this is the derivative the correspondence check
+  compares with the analytic partials of the code; at `K = ℝ` the soundness of every primitive is proved in
+  `OASProofs/Lemmas/AD.lean`.
 -/
 namespace OAS
 
-structure DualF where
-  v : Float
-  d : Float
+structure Dual (K : Type) where
+  v : K
+  d : K
 
-namespace DualF
-instance : Inhabited DualF := ⟨⟨0, 0⟩⟩
-instance : Zero DualF := ⟨⟨0, 0⟩⟩
-instance : One DualF := ⟨⟨1, 0⟩⟩
-instance : NatCast DualF := ⟨fun n => ⟨Float.ofNat n, 0⟩⟩
-instance : Add DualF := ⟨fun a b => ⟨a.v + b.v, a.d + b.d⟩⟩
-instance : Sub DualF := ⟨fun a b => ⟨a.v - b.v, a.d - b.d⟩⟩
-instance : Neg DualF := ⟨fun a => ⟨-a.v, -a.d⟩⟩
-instance : Mul DualF := ⟨fun a b => ⟨a.v * b.v, a.d * b.v + a.v * b.d⟩⟩
-instance : Div DualF := ⟨fun a b => ⟨a.v / b.v, (a.d * b.v - a.v * b.d) / (b.v * b.v)⟩⟩
-instance : LT DualF := ⟨fun a b => a.v < b.v⟩
-instance : DecidableLT DualF := fun a b => inferInstanceAs (Decidable (a.v < b.v))
+namespace Dual
+variable {K : Type}
 
-instance : Elem DualF where
-  sqrt a := let s := Float.sqrt a.v; ⟨s, a.d / (2 * s)⟩
-  sin a := ⟨Float.sin a.v, Float.cos a.v * a.d⟩
-  cos a := ⟨Float.cos a.v, -(Float.sin a.v) * a.d⟩
-  tan a := let c := Float.cos a.v; ⟨Float.tan a.v, a.d / (c * c)⟩
-  exp a := let e := Float.exp a.v; ⟨e, e * a.d⟩
-  log a := ⟨Float.log a.v, a.d / a.v⟩
+instance [Inhabited K] : Inhabited (Dual K) := ⟨⟨default, default⟩⟩
+instance [Zero K] : Zero (Dual K) := ⟨⟨0, 0⟩⟩
+instance [One K] [Zero K] : One (Dual K) := ⟨⟨1, 0⟩⟩
+instance [NatCast K] [Zero K] : NatCast (Dual K) := ⟨fun n => ⟨(n : K), 0⟩⟩
+instance [Add K] : Add (Dual K) := ⟨fun a b => ⟨a.v + b.v, a.d + b.d⟩⟩
+instance [Sub K] : Sub (Dual K) := ⟨fun a b => ⟨a.v - b.v, a.d - b.d⟩⟩
+instance [Neg K] : Neg (Dual K) := ⟨fun a => ⟨-a.v, -a.d⟩⟩
+instance [Add K] [Mul K] : Mul (Dual K) := ⟨fun a b => ⟨a.v * b.v, a.d * b.v + a.v * b.d⟩⟩
+instance [Sub K] [Mul K] [Div K] : Div (Dual K) := ⟨fun a b => ⟨a.v / b.v, (a.d * b.v - a.v * b.d) / (b.v * b.v)⟩⟩
+instance [LT K] : LT (Dual K) := ⟨fun a b => a.v < b.v⟩
+instance [LT K] [DecidableLT K] : DecidableLT (Dual K) := fun a b => inferInstanceAs (Decidable (a.v < b.v))
+
+instance [Add K] [Sub K] [Mul K] [Div K] [Neg K] [Zero K] [One K] [NatCast K] [Elem K] [LT K] [DecidableLT K] [BEq K] :
+    Elem (Dual K) where
+  sqrt a := let s := Elem.sqrt a.v; ⟨s, a.d / (((2 : Nat) : K) * s)⟩
+  sin a := ⟨Elem.sin a.v, Elem.cos a.v * a.d⟩
+  cos a := ⟨Elem.cos a.v, -(Elem.sin a.v) * a.d⟩
+  tan a := let c := Elem.cos a.v; ⟨Elem.tan a.v, a.d / (c * c)⟩
+  exp a := let e := Elem.exp a.v; ⟨e, e * a.d⟩
+  log a := ⟨Elem.log a.v, a.d / a.v⟩
   rpow a b :=
-    let p := Float.pow a.v b.v
-    ⟨p, b.v * Float.pow a.v (b.v - 1) * a.d + (if b.d == 0 then 0 else p * Float.log a.v * b.d)⟩
-  abs a := ⟨Float.abs a.v, if a.v < 0 then -a.d else a.d⟩
-  atan a := ⟨Float.atan a.v, a.d / (1 + a.v * a.v)⟩
-  acos a := ⟨Float.acos a.v, -a.d / Float.sqrt (1 - a.v * a.v)⟩
-  pi := ⟨3.141592653589793, 0⟩
-end DualF
+    let p := Elem.rpow a.v b.v
+    ⟨p, b.v * Elem.rpow a.v (b.v - 1) * a.d + (if b.d == 0 then 0 else p * Elem.log a.v * b.d)⟩
+  abs a := ⟨Elem.abs a.v, if a.v < 0 then -a.d else a.d⟩
+  atan a := ⟨Elem.atan a.v, a.d / (1 + a.v * a.v)⟩
+  acos a := ⟨Elem.acos a.v, -a.d / Elem.sqrt (1 - a.v * a.v)⟩
+  pi := ⟨Elem.pi, 0⟩
+end Dual
+
+/-- the instance the driver uses -/
+abbrev DualF := Dual Float
 
 end OAS
